@@ -21,7 +21,9 @@ META = dict(
          'on pre-start instances are created satisfied while those on '
          'at-or-after-start instances are not; and that nothing before the '
          'start point is ever spawned automatically from a pre-start task.',
-    note='integer cycling; start point 3, points 1..5, tasks a, b, c; '
+    note='fixture "warm" (cold[^] & foo[-P1] => foo; cold2[^+P1] | foo => '
+         'bar; foo[-P2] => baz) adds initial-point-relative triggers; '
+         'integer cycling; start point 3, points 1..5, tasks a, b, c; '
          'flows {1} / {2} / {1,2}; history = one waiting row in an '
          'overlapping flow; start tasks (--start-task) are outside.',
     functions=['TaskPool.spawn_task', 'TaskPool._get_task_history',
@@ -134,10 +136,55 @@ def auto(p: int, fi: int, out_i: int) -> bool:
         return _auto(p, fi, out_i)
 
 
+CFGW = fx.cfg('warm', startcp='3')
+WNAMES = ['foo', 'bar', 'baz']
+
+
+def _icp(ni, p, fi):
+    """Initial-point-relative triggers (cold[^], cold2[^+P1]) and plain
+    offsets under a warm start: atoms on instances before the start point are
+    created satisfied, all others are not."""
+    pool = fx.pool(CFGW)
+    got = pool.spawn_task(WNAMES[ni], IntegerPoint(str(p)), set(FLOWS[fi]))
+    if got is None:
+        return False                 # at or after the start point: spawned
+    seen = set()
+    for pre in got.state.prerequisites:
+        for k, v in pre._satisfied.items():
+            kp = int(k.point)
+            seen.add((k.task, kp))
+            if kp == p:
+                if v:
+                    return False
+                continue
+            if bool(v) != (kp < START):
+                return False
+    want = {'foo': {('cold', 1), ('foo', p - 1)},
+            'bar': {('cold2', 2), ('foo', p)},
+            'baz': {('foo', p - 2)}}[WNAMES[ni]]
+    if seen != want:
+        return False
+    # a task all of whose dependencies are pre-start can run at once
+    ready = all(kp < START for _n, kp in want) or (
+        WNAMES[ni] == 'bar')         # (cold2[^+P1] | foo)
+    return got.state.prerequisites_all_satisfied() == ready
+
+
+def icp(ni: int, p: int, fi: int) -> bool:
+    """
+    pre: 0 <= ni < 3 and 3 <= p <= 6 and 0 <= fi < 3
+    post: _
+    """
+    ni, p, fi = fork_int(ni, 0, 2), fork_int(p, 3, 6), fork_int(fi, 0, 2)
+    with concrete():
+        return _icp(ni, p, fi)
+
+
 def OBLIGATIONS(tier):
     big = tier == 'thorough'
     t = 1200 if big else 160
-    return [Ob('spawn', 'spawn', timeout=t), Ob('auto', 'auto', timeout=t)]
+    return [Ob('spawn', 'spawn', timeout=t), Ob('auto', 'auto', timeout=t),
+            Ob('icp', 'icp', timeout=t)]
 
 
 def VALIDATE():
@@ -146,4 +193,5 @@ def VALIDATE():
     assert _spawn(0, 2, 0, False, False) and _spawn(0, 2, 0, True, False)
     assert _spawn(1, 3, 0, False, False) and _spawn(2, 1, 1, False, False)
     assert _auto(2, 0, 0) and _auto(3, 0, 1) and _auto(1, 1, 0)
-    return n + 8
+    assert _icp(0, 3, 0) and _icp(1, 4, 0) and _icp(2, 5, 2)
+    return n + 11
